@@ -9,6 +9,7 @@ import (
 	"math"
 	"os"
 	"strings"
+	"time"
 )
 
 type replayFile struct {
@@ -156,6 +157,15 @@ func IteI64(c bool, a, b int64) int64 {
 	}
 	return b
 }
+
+// Threads switches the engine's goroutine scheduler on: schedules with at most
+// maxPreemptions pre-emptions are explored; loads and stores made by functions of
+// the watched packages (path suffixes) are scheduling points and are checked for
+// data races. Natively a no-op (real goroutines; run with -race).
+func Threads(maxPreemptions int, watch ...string) {}
+
+// Quiesce lets all other goroutines run until none of them can make progress.
+func Quiesce() { time.Sleep(20 * time.Millisecond) }
 
 // Stop ends the current path without verdict (outside the stated bound).
 func Stop(why string) { panic(StopPath{why}) }
